@@ -1,12 +1,18 @@
 // Package vrand stands in for crypto/rand in internal/upload/reports.go: Read returns the
-// bytes chosen by the harness (Next), else real randomness.
+// bytes chosen by the harness (Fn or Next), else real randomness.
 package vrand
 
 import "crypto/rand"
 
-var Next []byte
+var (
+	Next []byte
+	Fn   func() []byte // if set, supplies the bytes of each Read
+)
 
 func Read(b []byte) (int, error) {
+	if Fn != nil {
+		return copy(b, Fn()), nil
+	}
 	if Next != nil {
 		return copy(b, Next), nil
 	}
